@@ -151,6 +151,10 @@ class BufferedPipe:
                     if timeout is not None:
                         timeout -= time.time() - then
                         if timeout <= 0.0:
+                            # data may have arrived (or the pipe been closed)
+                            # while we were waking up; only time out if not.
+                            if len(self._buffer) > 0 or self._closed:
+                                break
                             raise PipeTimeout()
 
             # something's in the buffer and we have the lock!
